@@ -93,6 +93,8 @@ def conformance(pid, tier, seed):
         c.validate(evs, mod, cfg, f"conf-{fam}", what=f"{fam} conformance", cost=cost_conf(fam),
                    shards=14 if fam in ("Blowfish", "Serpent") or thorough else 8)
         if fam == "DES":
+            # spec-level: complementation, parity-insensitivity and the weak-key structure hold in DES.tla itself
+            c.model_check("sanity/DesWeakSanity.tla", "sanity/DesWeakSanity.cfg", "DesSanity", workers=2, timeout=600)
             # key relations of C05 (parity, complementation, EDE collapse, two-key = three-key) through the L1 key class
             rel = c.drive("default", "desrel", keys=60 if thorough else 10)
             c.validate(rel, API_MOD, API_CFG, "desrel", what="DES/TDES key relations")
